@@ -32,6 +32,7 @@ pub fn profile() -> Profile {
         perms: true,
         tag_on_modifiers: false,
         extra: 0,
+        tiny_patterns: true,
     }
 }
 
